@@ -98,7 +98,7 @@ class C02(Monitor):
         retr = set(tr.post.mem)
         if tr.post.archived and tr.post.arch:
             retr |= set(tr.post.arch)
-        legit = kind in ('clear', 'clearks', 'redec', 'reclone', 'arch', 'newarch') or not tr.pre.archived
+        legit = kind in ('clear', 'clearks', 'redec', 'reclone', 'arch', 'newarch', 'aclear') or not tr.pre.archived
         if kind == 'newarch':
             # the corollary speaks about one lossless archive staying attached: replacing it restarts the at-most-once
             # accounting for everything the new archive does not hold (the per-call clause is still checked)
@@ -277,8 +277,8 @@ class C07(Monitor):
         kind = tr.ev[0]
         if tr.incoherent:
             return out
-        if kind == 'newarch' and tr.pre.mem:
-            self.replaced = True
+        if kind in ('newarch', 'aclear') and tr.pre.mem:
+            self.replaced = True       # memory now holds entries that the attached archive does not
         out = self._step(S, tr, kind)
         if not tr.post.mem or kind == 'redec':
             self.replaced = False       # nothing resident any more that predates the replacement
@@ -321,7 +321,7 @@ class C07(Monitor):
         retr = dict(tr.post.mem)
         if tr.post.arch:
             retr.update(tr.post.arch)
-        if kind in ('clear', 'clearks', 'redec', 'reclone', 'newarch') or not tr.pre.archived or not tr.post.archived:
+        if kind in ('clear', 'clearks', 'redec', 'reclone', 'newarch', 'aclear') or not tr.pre.archived or not tr.post.archived:
             # explicit clear, or archive not attached: losses are legitimate
             for k in list(self.computed):
                 if k not in retr:
